@@ -212,23 +212,7 @@ def run(tier='quick'):
     for f in roots:
         chk.analysed(f)
     c16.guarded_opens(prog, cg, eff, chk, Y5, roots)
-    fmap = schemas.factory_map(prog)
-    for en in supported:
-        cls = fmap.get(en)
-        if cls is None:
-            continue
-        ver = schemas.version_of_class(prog, cls)
-        tr, variant = _triple(en)
-        short = cls.split('::')[-1]
-        if ver == tr:
-            chk.ok(Y5, '%s: class constant %s is the triple detect_schema maps to %s' % (short, ver, en), '-')
-        else:
-            chk.violation(Y5, '%s|class constant' % en, '-',
-                          '%s declares schema_version %s (own or inherited); the enumerator %s stands for %s: a '
-                          'library created as %s is detected as another version after reopening' % (short, ver, en, tr, en))
-        for e in schemas.creation_trace(prog, cls):
-            if e.stmt.kind == 'insert' and (e.stmt.table or '').lower() == 'information':
-                c12._check_info_insert(prog, chk, Y5, cls, short, ver, e)
+    version_stamp(prog, chk, Y5, supported)
     return chk.finish(
         'Finite evaluation of the decision code read from the clang AST: detect_schema is evaluated for '
         'every (major, minor, patch) in a box built from all case labels and their neighbours (%d cells; '
@@ -326,6 +310,31 @@ def _variant(prog, chk, Y2, f):
         chk.violation(Y2, 'get_column_type|shape', locstr(g.node),
                       'get_column_type does not compare column 1 (name) of PRAGMA table_info and return '
                       'column 2 (type)')
+
+
+def version_stamp(prog, chk, Y5, supported=None):
+    """Each supported creator stamps the Information row(s) with the triple of its own class, the one
+    detect_schema maps back to its enumerator (shared with C11)."""
+    from . import c12
+    if supported is None:
+        supported = _supported(prog)
+    fmap = schemas.factory_map(prog)
+    for en in supported:
+        cls = fmap.get(en)
+        if cls is None:
+            continue
+        ver = schemas.version_of_class(prog, cls)
+        tr, variant = _triple(en)
+        short = cls.split('::')[-1]
+        if ver == tr:
+            chk.ok(Y5, '%s: class constant %s is the triple detect_schema maps to %s' % (short, ver, en), '-')
+        else:
+            chk.violation(Y5, '%s|class constant' % en, '-',
+                          '%s declares schema_version %s (own or inherited); the enumerator %s stands for %s: a '
+                          'library created as %s is detected as another version after reopening' % (short, ver, en, tr, en))
+        for e in schemas.creation_trace(prog, cls):
+            if e.stmt.kind == 'insert' and (e.stmt.table or '').lower() == 'information':
+                c12._check_info_insert(prog, chk, Y5, cls, short, ver, e)
 
 
 def _layout(prog, chk, Y3):
